@@ -22,7 +22,7 @@
 //! <id> stands for an outpoint: transaction hash = id (8 bytes big endian) followed by 24 bytes 0x11, index id mod 4.
 //!
 //! Result line: <ok|err:insufficient|err:other|panic|hang> I <n> <ids of the builder's inputs, ascending>
-//!              X <get_explicit_input as value with only non-zero assets | err> F <min_fee() after success | err | ->
+//!              X <get_explicit_input as value with only non-zero assets | err> F <min_fee() of the builder after success or reported insufficiency | err | ->
 //!              G <outpoint added last by LargestFirst> <min_fee() of the builder without it> | -
 //! The oracle entries a case needs are discovered by asking the extracted model (`c08_driver serve`) which entry it
 //! misses and answering with the real builder's fee_for_input / min_fee, until the model runs through.
@@ -270,7 +270,7 @@ fn run_impl(c: &Case) -> (String, Vec<(u64, u64)>) {
     };
     let ids = match input_ids(&tb) { Some(v) => v, None => return (format!("{} inputs-unobservable", status), draws) };
     let x = match tb.get_explicit_input() { Ok(v) => show_value(&v), Err(_) => "err".into() };
-    let f = if status == "ok" { match tb.min_fee() { Ok(f) => { let f: u64 = f.into(); f.to_string() } Err(_) => "err".into() } } else { "-".into() };
+    let f = if status == "ok" || status == "err:insufficient" { match tb.min_fee() { Ok(f) => { let f: u64 = f.into(); f.to_string() } Err(_) => "err".into() } } else { "-".into() };
     // largest-first: min_fee() of the builder without the input that was added last (the smallest added one, the first
     // in offered order among equal ones), so that "stops as soon as covered" can be judged on this result
     let g = if status == "ok" { match lf_last_added(c, &ids) {
@@ -611,9 +611,13 @@ fn main() {
         let impl_path = format!("{}/impl.txt", args[2]);
         start_watchdog();
         // (a) random scenarios x random scripts
-        let n_scen = if thorough { 25000 } else { 1600 };
+        let n_scen = if thorough { 30000 } else { 2500 };
+        let mut extra_deterministic = 0;
         for _ in 0..n_scen {
-            let sc = gen_scenario(&mut r, 12);
+            let mut sc = gen_scenario(&mut r, 12);
+            // the largest-first strategies run one script per scenario: give them three scenarios for every one drawn
+            if extra_deterministic > 0 { extra_deterministic -= 1; if sc.strat % 2 == 1 && sc.label.starts_with('f') { sc.strat -= 1; } }
+            else if sc.strat % 2 == 0 { extra_deterministic = 2; }
             let mut cache = HashMap::new();
             let scripts = if sc.strat % 2 == 1 { if thorough { 8 } else { 6 } } else { 1 };
             for _ in 0..scripts {
